@@ -163,7 +163,7 @@ func C06(c *Ctx, r *report.Run) error {
 	}
 	specs = append(specs, univ.PairSpecs(c.Thorough)...)
 	r.Programs = len(specs)
-	w, err := ws.Build(c.Bins, specs, ws.Options{Variant: ws.HC, Tag: "rtHC06", Harness: true, OAS: true, OASJSON: true})
+	w, err := ws.Build(c.Bins, specs, ws.Options{Variant: ws.CH, Tag: "rtCH06", Harness: true, OAS: true, OASJSON: true})
 	if err != nil {
 		return err
 	}
